@@ -338,6 +338,7 @@ nni_aio_reset(nni_aio *aio)
 	aio->a_result           = NNG_OK;
 	aio->a_count            = 0;
 	aio->a_abort            = false;
+	aio->a_done             = false;
 	aio->a_expire_ok        = false;
 	aio->a_sleep            = false;
 	aio->a_skipped_callback = NULL;
@@ -393,6 +394,7 @@ nni_aio_start(nni_aio *aio, nni_aio_cancel_fn cancel, void *data)
 		aio->a_count     = 0;
 		aio->a_result    = NNG_ESTOPPED;
 		aio->a_stopped   = true;
+		aio->a_done      = true;
 		nni_mtx_unlock(&eq->eq_mtx);
 		nni_task_dispatch(&aio->a_task);
 		return (false);
@@ -400,6 +402,7 @@ nni_aio_start(nni_aio *aio, nni_aio_cancel_fn cancel, void *data)
 	if (aio->a_abort) {
 		aio->a_sleep     = false;
 		aio->a_abort     = false;
+		aio->a_done      = true;
 		aio->a_expire_ok = false;
 		aio->a_count     = 0;
 		NNI_ASSERT(aio->a_result != NNG_OK);
@@ -408,9 +411,11 @@ nni_aio_start(nni_aio *aio, nni_aio_cancel_fn cancel, void *data)
 		return (false);
 	}
 	aio->a_result = NNG_OK;
+	aio->a_done   = false;
 	if (timeout) {
 		aio->a_sleep     = false;
 		aio->a_result    = aio->a_expire_ok ? NNG_OK : NNG_ETIMEDOUT;
+		aio->a_done      = true;
 		aio->a_expire_ok = false;
 		aio->a_count     = 0;
 		nni_mtx_unlock(&eq->eq_mtx);
@@ -447,9 +452,11 @@ nni_aio_abort(nni_aio *aio, nng_err rv)
 		arg               = aio->a_cancel_arg;
 		aio->a_cancel_fn  = NULL;
 		aio->a_cancel_arg = NULL;
-		if (fn == NULL) {
+		if (fn == NULL && !aio->a_done) {
 			// We haven't been scheduled yet,
 			// so make sure that schedule will abort.
+			// (If the operation has already finished, its
+			// result stands and the abort has no effect.)
 			aio->a_abort  = true;
 			aio->a_result = rv;
 		}
@@ -476,6 +483,7 @@ nni_aio_finish_impl(
 	nni_aio_expire_rm(aio);
 	aio->a_result     = rv;
 	aio->a_count      = count;
+	aio->a_done       = true;
 	aio->a_cancel_fn  = NULL;
 	aio->a_cancel_arg = NULL;
 	if (msg) {
@@ -702,6 +710,7 @@ nni_aio_expire_loop(void *arg)
 			// already doing it right here!
 			if (aio->a_sleep) {
 				aio->a_result = rv;
+				aio->a_done   = true;
 				aio->a_sleep  = false;
 				nni_task_dispatch(&aio->a_task);
 			} else if (cancel_fn != NULL) {
